@@ -261,6 +261,15 @@ def refused_inside_session_layer(ck, n_cases):
                "evlrs": None if evlrs is None else len(evlrs)}
         ck.case(("refused_in_session", minor, fmt, n0, tuple(inp["accepted"]), ofmt, las.points.array.tobytes()), nontrivial=True)
         ck.count("refused_inside_session")
+        def decorate(x):
+            if ci % 2 == 0:
+                # whatever the seed: texts that end in blanks (header, a VLR's description, an EVLR's): an append session keeps them as they are
+                x.header.system_identifier = "ends in blanks  "
+                x.header.generating_software = "x "
+                x.vlrs.append(laspy.VLR("verif", 21, "padded description   ", b"p"))
+                if minor >= 4 and x.evlrs is not None:
+                    x.evlrs.append(laspy.VLR("verif", 22, "padded too ", b"q"))
+        decorate(las)
         b0 = io.BytesIO()
         las.write(b0)
         buf = io.BytesIO(b0.getvalue())
@@ -276,6 +285,7 @@ def refused_inside_session_layer(ck, n_cases):
             ck.fail("a record of another point format was accepted by the appender", inp)
             continue
         whole = fio.make_las(ck.rng, minor, fmt, 0, raw=las.points.array.tobytes() + b"".join(good), evlrs=evlrs)
+        decorate(whole)
         ref = io.BytesIO()
         whole.write(ref)
         if buf.getvalue() != ref.getvalue():
